@@ -278,7 +278,9 @@ namespace cdsv {
                 // stable low keys are (re-)inserted sequentially by the main thread whenever they are absent (arms the extract_min/max rules)
                 for ( unsigned k = 0; k < m_plan.stable_low_keys; ++k ) if ( m_pinned[k] == -1 ) do_op( T, A_INS, int( k ), m_log[T] );
                 unsigned nc = mrng.chance( 1, 2 ) ? 0 : mrng.range( 1, 7 );
-                unsigned stalls = mrng.chance( 1, 32 ) ? mrng.range( 1, 2 ) : 0;
+                // targeted long stalls (one thread sleeps 0.05-0.8 ms at a drawn atomic operation while the others run whole operations):
+                // in 1 of 32 short rounds, in every second segment (max_ops > 8)
+                unsigned stalls = mrng.chance( 1, m_plan.max_ops > 8 ? 2 : 32 ) ? mrng.range( 1, 3 ) : 0;
                 cdsv_rt_configure( m_seed + m_round, nc, stalls, expected_steps );
                 double ta = wall_now();
                 m_bar.wait();
@@ -290,7 +292,9 @@ namespace cdsv {
                     for ( unsigned t = 0; t < T; ++t ) {
                         int f = m_inflight[t].load();
                         if ( f < 0 ) continue;
-                        if ( first_op.empty()) first_op = aop_names[f >> 16];
+                        // the key names the spinning call: extract_min/extract_max if one is in flight (the others are then usually
+                        // blocked behind it, e.g. in RCU synchronize()), else the first call found
+                        if ( first_op.empty() || (( f >> 16 ) == A_EXMIN || ( f >> 16 ) == A_EXMAX )) first_op = aop_names[f >> 16];
                         stuck += ( stuck.empty() ? "" : ", " ) + std::string( "thread " ) + std::to_string( t ) + ": " + aop_names[f >> 16] + "(key " + std::to_string( f & 0xffff ) + ")";
                     }
                     std::string opkey = first_op; for ( char& ch : opkey ) if ( ch == ' ' || ch == '(' || ch == ')' ) ch = '_';
